@@ -103,6 +103,18 @@ def run(tier, replay=None):
     cs = cases(rng, tier)
     tmp = scratch_dir()
     try:
+        # boundary stratum: the extracted model itself locates the parameters at which its decisions flip (signature changes between
+        # neighbouring parameters, bisected) and the roots of the first acceptance slacks of both schemes (the bands in which two consecutive
+        # estimates agree by coincidence); cases are placed on both sides of every such boundary, at the band edges |slack| = tol and
+        # slack^2 = tol |T|.  A changed acceptance rule shifts these boundaries, so model and implementation disagree there.
+        sf = os.path.join(tmp, "scan.txt")
+        rc, sout = sh([os.path.join(OCAML, "drv_quad"), "scan", tier, sf], check=False, timeout=3600)
+        sm = [l for l in sout.splitlines() if l.startswith("SCAN")]
+        if rc != 0 or not sm:
+            raise RuntimeError("boundary scan failed: " + sout[-2000:])
+        bcs = [l for l in open(sf).read().splitlines() if l.strip()]
+        res.cov["boundary_stratum"] = dict(x.split("=") for x in sm[0].split()[1:])
+        cs = cs + bcs
         cf = os.path.join(tmp, "cases.txt"); open(cf, "w").write("\n".join(cs) + "\n")
         exe = compile_driver("drv_quad.cpp", "rel")
         of = os.path.join(tmp, "out.txt")
@@ -125,11 +137,20 @@ def run(tier, replay=None):
         # known finding: the acceptance tests compare differences of estimates that are all below the
         # tolerance itself, so "converged" is reported on an estimate |I| <= 16*tol whatever the truth is
         known = [k for k in load_known() if k.get("id") == "F-C15-premature" and k.get("status") == "known"]
-        kn, rest = [], []
+        known2 = [k for k in load_known() if k.get("id") == "F-C15-coincidence" and k.get("status") == "known"]
+        kn, kn2, rest = [], [], []
         for l in pv:
             f = dict(x.split("=") for x in l.split()[2:])
             I = float.fromhex(f["I"]); tolv = float.fromhex(f["tol"])
-            (kn if (known and abs(I) <= 16.0 * tolv) else rest).append(l)
+            if known and abs(I) <= 16.0 * tolv:
+                kn.append(l)
+            elif known2 and f.get("restored_by_deferral") == "1":
+                kn2.append(l)      # the same call with the first acceptance(s) deferred (hook quad_defer) meets the bound or reports non-convergence
+            else:
+                rest.append(l)
+        if kn2:
+            res.known("F-C15-coincidence: %d converged cases accepted because two consecutive estimates agree by coincidence miss the integral; deferring the acceptance restores them (e.g. %s: %s)" % (len(kn2), kn2[0].split()[1], by.get(kn2[0].split()[1])))
+            res.cov["known_finding_coincidence_cases"] = len(kn2)
         if kn:
             res.known("F-C15-premature: %d converged cases whose accepted estimate is itself <= 16*tolerance miss the integral (e.g. %s: %s)" % (len(kn), kn[0].split()[1], by.get(kn[0].split()[1])))
             res.cov["known_finding_cases"] = len(kn)
